@@ -231,7 +231,7 @@ Definition judge (oracle : oracle_t) (p1 p2 : val) (h v : Z) (radius : float) (s
                           if skip || negb (dist_applies h radius) then jv (same_ids ml ol) structural (ids_val m)
                           else
                             let added := added_of L ol in
-                            let missing := filter (fun x => negb (SS.mem x oset)) msl in
+                            let missing := sort_strings (filter (fun x => negb (SS.mem x oset)) msl) in   (* canonical order: the query must not depend on the order in which the line's IDs arrived *)
                             match ask_hdist oracle p1 p2 radius added, ask_hdist oracle p1 p2 radius missing with
                             | Some ba, Some bm =>
                                 let far := map fst (filter (fun ib => (radius <? fst (snd ib))%float) (combine added ba)) in  (* kept, clearly outside *)
